@@ -1111,15 +1111,15 @@ theorem inv_passEndHint {s s' : State} {t : Nat} (h : Inv san s) (hs : step san 
 section threadSteps
 variable {s s' : State} {t c : Nat}
 
-theorem inv_passIter {v : List Nat} (h : Inv san s) (hpc : pcOf s t = .passIter v)
+theorem inv_passIter {v : List (Nat × Nat)} (h : Inv san s) (hpc : pcOf s t = .passIter v)
     (hs : step san s (.step t c) = some s') : Pres san s s' := by
   simp only [step, hpc] at hs
   split at hs
   · cases hs
-  · split at hs
+  · next sid hl =>
+    split at hs
     · cases hs
-    · next sid hl =>
-      split at hs
+    · split at hs
       · cases hs
       · next x hx =>
         cases hs
@@ -1128,7 +1128,7 @@ theorem inv_passIter {v : List Nat} (h : Inv san s) (hpc : pcOf s t = .passIter 
         simp only [pcScope, Option.some.injEq] at hs'; subst hs'
         exact ⟨x, hx, fun hc => ⟨by simpa [pcClosed] using hc, fun hsw => by simp [pcSwapped] at hsw⟩⟩
 
-theorem inv_passSwap {v : List Nat} {k sid : Nat} {cl : Bool} (h : Inv san s) (hpc : pcOf s t = .passSwap v k sid cl)
+theorem inv_passSwap {v : List (Nat × Nat)} {k sid : Nat} {cl : Bool} (h : Inv san s) (hpc : pcOf s t = .passSwap v k sid cl)
     (hs : step san s (.step t c) = some s') : Pres san s s' := by
   simp only [step, hpc] at hs
   split at hs
@@ -1143,14 +1143,14 @@ theorem inv_passSwap {v : List Nat} {k sid : Nat} {cl : Bool} (h : Inv san s) (h
     · split <;> rfl
     · rw [hpc]; split <;> rfl
 
-theorem inv_passDeliver {v : List Nat} {k sid : Nat} {cl : Bool} {pd : List Token} (h : Inv san s)
+theorem inv_passDeliver {v : List (Nat × Nat)} {k sid : Nat} {cl : Bool} {pd : List Token} (h : Inv san s)
     (hpc : pcOf s t = .passDeliver v k sid cl pd) (hs : step san s (.step t c) = some s') : Pres san s s' := by
   simp only [step, hpc] at hs
   cases hs
   refine h.deliver t _ pd (by rw [hpc]; rfl) (by rw [hpc]; rfl) rfl ?_
   exact (hpc ▸ h.pcInv t : PcInv s (.passDeliver v k sid cl pd)).of_same rfl id (fun _ _ => rfl)
 
-theorem inv_passAfter {v : List Nat} {k sid : Nat} {cl : Bool} (h : Inv san s)
+theorem inv_passAfter {v : List (Nat × Nat)} {k sid : Nat} {cl : Bool} (h : Inv san s)
     (hpc : pcOf s t = .passAfter v k sid cl) (hs : step san s (.step t c) = some s') : Pres san s s' := by
   simp only [step, hpc] at hs
   split at hs
@@ -1166,7 +1166,7 @@ theorem isEmpty_of_not_not {l : List Nat} (h : ¬ (!l.isEmpty) = true) : l = [] 
   | nil => rfl
   | cons a l => simp at h
 
-theorem inv_passUnlocked {v : List Nat} {k sid : Nat} (h : Inv san s)
+theorem inv_passUnlocked {v : List (Nat × Nat)} {k sid : Nat} (h : Inv san s)
     (hpc : pcOf s t = .passUnlocked v k sid) (hs : step san s (.step t c) = some s') : Pres san s s' := by
   simp only [step, hpc] at hs
   split at hs
@@ -1175,14 +1175,14 @@ theorem inv_passUnlocked {v : List Nat} {k sid : Nat} (h : Inv san s)
     refine h.delete t k sid _ (by rw [hpc]; rfl) rfl (by rw [hpc]; rfl) rfl (by rw [hpc]; rfl) (by rw [hpc]; rfl) ?_
     exact (hpc ▸ h.pcInv t : PcInv s (.passUnlocked v k sid)).of_same rfl id (fun _ _ => rfl)
 
-theorem inv_passRelock {v : List Nat} {k sid : Nat} (h : Inv san s)
+theorem inv_passRelock {v : List (Nat × Nat)} {k sid : Nat} (h : Inv san s)
     (hpc : pcOf s t = .passRelock v k sid) (hs : step san s (.step t c) = some s') : Pres san s s' := by
   simp only [step, hpc] at hs
   cases hs
   refine h.acquire t _ rfl (by rw [hpc]; rfl) rfl ?_
   exact (hpc ▸ h.pcInv t : PcInv s (.passRelock v k sid)).of_same rfl id (fun _ _ => rfl)
 
-theorem inv_passClear {v : List Nat} {k sid : Nat} (h : Inv san s)
+theorem inv_passClear {v : List (Nat × Nat)} {k sid : Nat} (h : Inv san s)
     (hpc : pcOf s t = .passClear v k sid) (hs : step san s (.step t c) = some s') : Pres san s s' := by
   simp only [step, hpc] at hs
   split at hs
@@ -1862,7 +1862,8 @@ def wantsWrite : Pc → Bool
   | _ => false
 
 /-- the only reasons for a thread's step to be disabled in a state satisfying the invariant: the thread is
-idle; it is a pass at the top of its loop and the chosen key is not an unvisited registered key; it needs the
+idle; it is a pass at the top of its loop and the chosen key is not registered or its entry `(key, scope id)` has been
+visited by this pass already; it needs the
 write lock while readers hold the read lock; or it must clear (take the metric write lock of) a scope that
 some thread is visiting -/
 theorem Inv.blocked_only_on_locks {s : State} (h : Inv san s) {t c : Nat} (hne : pcOf s t ≠ .idle)
